@@ -131,7 +131,7 @@ PROPS = {
                 explanation="status word is a universally quantified integer at every exchange call site"),
     "C11": dict(level="proof", assumptions=COMMON + [A_SEQ], trusted_base=TB,
                 explanation="link faults are outcomes of the exchange contract at every call site"),
-    "C02": dict(level="proof", assumptions=COMMON + [A_DOC, A_BTC, "BIP32Path.__init__ key-id grammar: assumed contract (uninterpreted predicate)"],
+    "C02": dict(level="proof", assumptions=COMMON + [A_DOC, A_BTC, "BIP32Path.__init__ key-id grammar (split on /, element count, m/ prefix): assumed contract (uninterpreted predicate); its element parser BIP32Element.__init__ IS verified (decimal digits, at most one trailing quote, value < 2^31) with str.isdecimal / int(str) uninterpreted: isdecimal(s) => s non-empty, an integer literal in base 10, value >= 0"],
                 trusted_base=TB + ["spec/requests.py (structural requirements transcribed from docs/protocol.md)"],
                 explanation="every JSON value is a universally quantified term of an uninterpreted JSON sort"),
     "C03": dict(level="proof", assumptions=COMMON + [A_SEQ, A_BTC, "A-MEM: a request line is shorter than 2^32 bytes",
@@ -143,8 +143,10 @@ PROPS = {
                 trusted_base=TB, explanation="the whole product of device answers is symbolic; dominance of unlock by its preconditions"),
     "C05": dict(level="proof", assumptions=COMMON + [A_FW, "A-RLP / A-KECCAK: rlp.decode/encode, keccak as uninterpreted functions (spec/rlp_ext.py)",
                                                        "coinbase_tx_get_hash: assumed contract (SHA-256 midstate code out of reach)",
-                                                       "sorted(): result is the input ordered ascending by key (spec/sorting.py)",
-                                                       "scope: announced count, per-header metadata/chunk framing, result codes; the global order of all headers as one formula is not stated (DESIGN 5.C05)"],
+                                                       "sorted(xs, key=f): a permutation of xs; exceptions of f are sorted's exceptions (spec/sorting.py); reverse= is unsupported",
+                                                       "scope: announced count, per-header metadata/chunk framing, result codes; the global order of all headers as one formula is not stated (DESIGN 5.C05)",
+                                                       "NOT covered: the clause 'brothers sorted ascending by block hash' - no postcondition speaks about the order in which brothers reach the "
+                                                       "device; the ordering predicate asserted by the sorted() model is used by no clause; get_block_hash is verified on its own"],
                 trusted_base=TB + ["spec/rlp_ext.py", "spec/sorting.py"],
                 explanation="block operations verified with the real status tables inlined; chunk framing by the loop invariant of _send_data_in_chunks"),
     "C10": dict(level="other", assumptions=COMMON + ["A-FS: open/write may fail at any call; 'wb' truncates (spec/fs.py)",
